@@ -252,6 +252,20 @@ def r15e(ck, fb):
                 ck.require(any(t.op_tainted(o) for o in a['ops']), 'R15e', key + ':payload<-difference', s.where(),
                            'the ids announced as gone are not the set difference (known ids minus reported ids)')
     ck.floor('R15e', 'client_set removers outside client_invalid_instance', n, 2)
+    # dropping a whole node record drops its client_set too: the node's clients must be invalidated on the same path
+    for b in methods:
+        drops = util.mut_calls_on_field(b, 'all_nodes', r'BTreeMap::<K, V, A>::(remove|clear|retain)$')
+        if not drops:
+            continue
+        ck.analysed(b)
+        key = b.name.split('::')[-1]
+        inv = b.calls(re.escape(NM + 'client_invalid_instance') + '$') + \
+            [x[0] for x in util.sends(b, r'NamingCmd$') if x[2] in ('RemoveClientFromCluster', 'RemoveClientsFromCluster')]
+        ok = bool(inv) and all(any(i.bb in cfg.reach_from(b, [d.bb]) for i in inv) for d in drops)
+        ck.require(ok, 'R15e', key + ':node-removal-invalidates-clients', drops[0].where(),
+                   '%s removes a node record (and with it the list of that node\'s gRPC client ids) without invalidating those clients: the instances '
+                   'they registered stay on this node for ever - a node that leaves the membership takes its connections with it, and nothing else '
+                   'will ever time them out' % key, 'client_invalid_instance after the removal')
 
 
 def _same_local(b, op1, op2):
